@@ -61,12 +61,20 @@ def obligations(r, tier, seed):
                 k.eq([np.cos(e[2]), np.sin(e[2])], [np.cos(want), np.sin(want)], "rotation: angle congruent to th_z-(th_2-th_1)")
             else:
                 qE = lie.hamilton(lie.conj(lie.hamilton(lie.conj(lie.quat(p1)), lie.quat(p2))), lie.quat(z))
-                k.eq([e[3], e[4], e[5]], qE[:3], "rotation: vector part of conj(conj(q1)q2) q_z")
-                # and the full error pose E satisfies p2*E == p1*z as rigid motions
+                # q and -q are the same rotation: the rotational error is the vector part of +qE or of -qE (one common sign),
+                # i.e. it is parallel to vec(qE) with the same length ...
+                er, v = [e[3], e[4], e[5]], qE[:3]
+                k.eq([er[1] * v[2] - er[2] * v[1], er[2] * v[0] - er[0] * v[2], er[0] * v[1] - er[1] * v[0]], [0, 0, 0],
+                     "rotation: error is parallel to the vector part of conj(conj(q1)q2) q_z")
+                k.eq(er[0] * er[0] + er[1] * er[1] + er[2] * er[2], v[0] * v[0] + v[1] * v[1] + v[2] * v[2], "rotation: same length as that vector part")
+                k.eq([er[i] * er[j] for i in range(3) for j in range(3)], [v[i] * v[j] for i in range(3) for j in range(3)],
+                     "rotation: e_rot e_rot^T == v v^T (so e_rot = +v or e_rot = -v)")
+                # ... and the full error pose E satisfies p2*E == p1*z as rigid motions
                 E = z - (p2 - p1)
-                k.eq(E.to_compact(), e, "error-is-compact-of-E")
                 k.eq(np.dot(lie.hom(np, T, p2), lie.hom(np, T, E)), np.dot(lie.hom(np, T, p1), lie.hom(np, T, z)), "rigid motion: p2*E == p1*z")
                 k.eq(lie.quat(E), qE, "quaternion of E")
+                Ec = E.to_compact()
+                k.eq([e[0], e[1], e[2]], [Ec[0], Ec[1], Ec[2]], "translational error is the translation of E")
         obs.append(Ob("C02/odometry/%s/error-model" % T, odo, funcs=[ODO + ".calc_error"]))
 
         def odo_zero(k, T=T):
